@@ -7,6 +7,14 @@ CHECKS = {
    "bounded exhaustive program exploration on the real code + exact arrangement-face oracle",
    "Every operator expression of a finite, named alphabet (depth 1-3, all shape kinds, orientations, int/Fraction/float/mixed) is executed on the real library and the returned shape is compared with an exact reference model on one witness per face of the arrangement of the operands' supporting lines; together with the exact test that the result boundary lies on operand boundaries this decides membership for ALL points off the operand boundaries of each explored polygonal program. Bounded: coordinates and depth are those of the alphabets.",
    "Reference model mc/refgeo.py (exact Fraction arithmetic); curved operands judged on a grid with clearance; operands outside exact general position only in the listed degenerate tier."),
+ "C05": ("model_checking", "2/C05",
+   "bounded exhaustive program exploration on the real code; measure identities evaluated with the library's integrals, operands cross-checked against exact closed-form integrals",
+   "For every operand pair of the finite alphabets (alphabet shapes and depth-1 operator results, all kinds/orientations/numeric types, exact general position) the transitions X|Y, X&Y, X-Y, Y-X, X^Y, ~X, ~Y are executed on the real library and the four identities are checked for the six moments of order <= 2, exactly for rational data and to rel 1e-5 otherwise.",
+   "Exact reference integrals (mc/refgeo.py) for the cross-check; Whole/Empty counted as 0; bounded by the alphabets."),
+ "C06": ("model_checking", "2/C06",
+   "bounded exhaustive program exploration on the real code + exact structural validator and singleton laws",
+   "Every result of the C01 expression families plus the singleton-law family (S|~S, S&~S, S-S, S^S, S^~S, ...) and the Empty/Whole tables for every alphabet shape of every kind is validated structurally with exact arithmetic (closed chains, no zero-length piece, no self-crossing, outer boundary/holes/components nesting, sorted subshapes, documented kind tables) and singletons are demanded by identity exactly when the reference region is empty/whole on every arrangement face.",
+   "Isolated contact points between boundaries are tolerated (A ^ B of crossing shapes cannot be represented without them); reference model mc/refgeo.py."),
 }
 NOT_BUILT = {}
 props = [json.loads(l) for l in open(os.path.join(ROOT, "properties.jsonl"))]
